@@ -7,10 +7,10 @@ From RecordUpdate Require Import RecordUpdate.
 
 (** * The invariant is inductive *)
 Lemma Good_WF e : Good e -> WF e.
-Proof. intros (H1 & H2 & H3 & H4 & H5). constructor; auto. Qed.
+Proof. intros (H1 & H2 & H3 & H4 & H5). constructor; auto; apply H5. Qed.
 Lemma Fin_WF e : Fin e -> WF e.
 Proof.
-  intros [H|(H1 & H2 & H3 & H4)]; [now apply Good_WF|]. constructor; auto. intros Hd. congruence.
+  intros [H|(H1 & H2 & H3 & H4 & H5 & H6)]; [now apply Good_WF|]. constructor; auto. intros Hd. congruence.
 Qed.
 Lemma alive_spec e : alive e = true ->
   dead e = None /\ panicked e = None /\ goodbye_sent (mx e) && goodbye_received (mx e) = false.
@@ -18,7 +18,7 @@ Proof. unfold alive. destruct (dead e), (panicked e); try discriminate. intros H
 Lemma step_alive e a e' : step_opt e a = Some e' -> alive e = true.
 Proof. unfold step_opt. destruct (alive e); [reflexivity|discriminate]. Qed.
 Lemma WF_Good e : WF e -> alive e = true -> Good e.
-Proof. intros [H1 H2 H3 H4] Ha. destruct (alive_spec _ Ha) as (Hd & _ & _). unfold Good. split; [|split; [|split; [|split]]]; auto. Qed.
+Proof. intros [H1 H2 H3 Hb Hq H4] Ha. destruct (alive_spec _ Ha) as (Hd & _ & _). unfold Good. split; [|split; [|split; [|split]]]; auto. Qed.
 
 Theorem WF_init ch bu cq rb ver maxp : WF (ep_init (mux_init ch bu cq rb ver) maxp).
 Proof.
@@ -26,6 +26,8 @@ Proof.
   - reflexivity.
   - constructor.
   - change (0 <= maxp). lia.
+  - intros p c. discriminate.
+  - split; unfold ep_init, mux_init; prj; lia.
   - intros _. constructor; unfold ep_init, mux_init; prj.
     + split; reflexivity.
     + intros p. cbn. lia.
@@ -75,3 +77,58 @@ Proof. induction acts as [|a acts IH]; intros e H; cbn [run fold_left]; [exact H
 Theorem no_panic ch bu cq rb ver maxp acts :
   panicked (run acts (ep_init (mux_init ch bu cq rb ver) maxp)) = None.
 Proof. apply WF_run, WF_init. Qed.
+
+(** * C08: a received message keeps the invariant or terminates the connection; a terminated
+      endpoint takes no further step *)
+Lemma dead_absorbing e a : dead e <> None -> step_opt e a = None.
+Proof. intros H. unfold step_opt, alive. destruct (dead e); [reflexivity|congruence]. Qed.
+Lemma not_alive_absorbing e a : alive e = false -> step_opt e a = None.
+Proof. intros H. unfold step_opt. now rewrite H. Qed.
+
+Theorem classified e m n e' :
+  WF e -> step_opt e (Recv m n) = Some e' ->
+  (dead e' = None /\ Inv e') \/ (exists err, dead e' = Some err /\ forall a, step_opt e' a = None).
+Proof.
+  intros Hw H. pose proof (WF_Good _ Hw (step_alive _ _ _ H)) as HG.
+  destruct (step_Recv _ _ _ _ HG H) as [(_ & Hd & _ & _ & Hi)|(_ & Hd & _)]; [left; auto|right].
+  destruct (dead e') as [err|] eqn:E; [|congruence]. exists err. split; [reflexivity|].
+  intros a. apply dead_absorbing. congruence.
+Qed.
+
+(** * C08: buffers are bounded *)
+Lemma len_le_used (l : list (N * list N)) : len l <= sum (map fst l) + count (fun x => fst x =? 0) l.
+Proof.
+  induction l as [|x l IH]; cbn [map sum]; [rewrite len_nil, count_nil; lia|].
+  rewrite len_cons, count_cons. destruct (fst x =? 0) eqn:E; cbn [b2n]; [lia|]. apply N.eqb_neq in E. lia.
+Qed.
+
+Theorem buffer_bounds e :
+  WF e ->
+  (forall p c, lookup p (ports (mx e)) = Some (Connected c) ->
+     used c <= cfg_buffer (mx e) /\ len (rxq c) <= used c + 1) /\
+  lq_wait (mx e) <= cfg_connect_queue (mx e) + 1 /\ lq_nowait (mx e) <= cfg_connect_queue (mx e) + 1.
+Proof.
+  intros [_ _ _ Hb [L1 L2] _]. split; [|auto]. intros p c Hl. destruct (Hb _ _ Hl) as (B1 & B2 & _).
+  split; [exact B1|]. pose proof (len_le_used (rxq c)) as H. pose proof (b2n_le1 (negb (rx_open c))). unfold used. lia.
+Qed.
+
+(** * C07: port numbers *)
+Theorem numbers e :
+  WF e ->
+  NoDup (alloc e) /\ len (alloc e) <= max_ports e /\
+  (dead e = None -> forall p, lookup p (ports (mx e)) <> None -> In p (alloc e)).
+Proof.
+  intros [_ H1 H2 _ _ Hi]. repeat split; auto. intros Hd p Hl. specialize (Hi Hd). destruct Hi as [_ Hn _ _ _ _ _ _ _].
+  specialize (Hn p). apply mem_In. destruct (lookup p (ports (mx e))); [|congruence]. cbn [isK] in Hn.
+  destruct (mem p (alloc e)); [reflexivity|]. cbn [b2n] in Hn. lia.
+Qed.
+
+Theorem should_terminate_spec m :
+  should_terminate m = true <->
+  (ports m = [] /\ (all_clients_dropped m = true \/ remote_listener_dropped m = true) /\
+   (listen_open m = false \/ remote_client_dropped m = true) /\ outstanding m = [])
+  \/ goodbye_sent m = true \/ goodbye_received m = true.
+Proof.
+  unfold should_terminate. rewrite !orb_true_iff, !andb_true_iff, !orb_true_iff, negb_true_iff.
+  destruct (ports m), (outstanding m); intuition (try discriminate; try congruence).
+Qed.
